@@ -62,7 +62,9 @@ def plan(tier, ctx):
                             core=core, family="hash_base", weight=2))
     # ---- (a) match-finder candidate filter / position arithmetic (constant-hash abstraction) -------------
     MU = [u for u in IGZIP_UNITS if u != "igzip/igzip_base.c"] + ["igzip/igzip.c"]
-    for kern, tag in ((("", "finish"),) if quick else (("", "finish"), ("H_BODY", "body"))):
+    # (isal_deflate_body_base needs avail_in > ISAL_LOOK_AHEAD = 288: -DH_BODY -DAVAIL_IN=292 gave no verdict in 30 min;
+    #  the flavour stays in the harness but is not scheduled)
+    for kern, tag in (("", "finish"),):
         for ai in ([8] if quick else ([4, 5, 8, 9, 12] if not kern else [292])):
             core = ai == 8
             qs.append(Query("match_%s/avail%d" % (tag, ai), R,
@@ -76,8 +78,8 @@ def plan(tier, ctx):
         functions_encoded=["set_dist_mask", "_zlib_header_in_buffer", "isal_deflate_stateless (zlib header path, empty input)",
                            "isal_deflate_set_dict", "isal_deflate_reset_dict", "check_level_req", "isal_deflate_process_dict",
                            "isal_inflate_set_dict", "isal_deflate_hash_base",
-                           "isal_deflate_finish_base (+ compare258, get_len_code, get_dist_code, compute_dist_code, update_state; "
-                           "isal_deflate_body_base thorough) with loads/hash/bit emission abstracted"],
+                           "isal_deflate_finish_base (+ compare258, get_len_code, get_dist_code, compute_dist_code, update_state) "
+                           "with loads/hash/bit emission abstracted"],
         bounds={
             "zlib header": "hist_bits all 2^16 values, level all 2^32 values (unit); hist_bits symbolic, level 0, empty input (API)",
             "dictionary calls": "dict_len SYMBOLIC 0..70000 with the payload copy recorded (src/dst/len) instead of performed, plus "
@@ -85,7 +87,7 @@ def plan(tier, ctx):
                                 "field of the stream (state over the whole enum, b_bytes_*, level, level_buf NULL/non-NULL, "
                                 "level_buf_size, has_hist, ...) and of struct isal_dict (process_dict: arbitrary previous contents of the OUTPUT struct incl. level > 3) arbitrary; reset_dict per level 0..3 with a "
                                 "level buffer object of exactly ISAL_DEF_LVLn_MIN bytes, and level > 3",
-            "match finder (a)": "avail_in 8 quick (4,5,8,9,12 thorough; body kernel 292 thorough); stream position total_in symbolic "
+            "match finder (a)": "avail_in 8 quick (4,5,8,9,12 thorough); stream position total_in symbolic "
                                 "0..40000; hist_bits symbolic 9..15; head slot = any earlier position; every loaded value arbitrary",
             "isal_deflate_hash_base": "dict_len 0..8, hash_mask 15 (63), current_index all 2^32, dictionary bytes arbitrary",
         },
@@ -102,8 +104,8 @@ def plan(tier, ctx):
         assumptions=["reset_dict: level_buf_size does not exceed the size of the object level_buf points to",
                      "big member arrays (buffer[], head[], history) are zero except one arbitrary element each (the observed one)",
                      "RFC 1950 CMF/FLG layout as written in the harness"],
-        outside=["(a) is decided only under the constant-hash abstraction, for isal_deflate_finish_base (quick) and isal_deflate_body_base "
-                 "(thorough), level 0: interactions between different hash slots, the ICF finders (levels 1-3), gen_icf_map_h1_base and "
+        outside=["(a) is decided only under the constant-hash abstraction and only for isal_deflate_finish_base, level 0 "
+                 "(isal_deflate_body_base with avail_in 292: no verdict in 30 min): interactions between different hash slots, the ICF finders (levels 1-3), gen_icf_map_h1_base and "
                  "dictionary-primed heads (isal_deflate_hash) are NOT covered; head entries are assumed to be earlier positions of the stream",
                  "end-to-end dictionary round trips; the assembly match finders and isal_deflate_hash asm variants",
                  "streaming isal_deflate header path (write_stream_header) beyond the shared _zlib_header_in_buffer",
